@@ -64,8 +64,10 @@ var xResponses = map[string]string{
 	"big":     "HTTP/1.1 200 OK\r\nContent-Length: 20000\r\n\r\n" + strings.Repeat("d", 20000),
 	"cut":     "HTTP/1.1 200 OK\r\nContent-Length: 9\r\n\r\ndirt",
 	"nobody":  "HTTP/1.1 204 No Content\r\nX-One: 1\r\n\r\n",
+	// the peer goes away in the middle of a body that is larger than what the client reads ahead
+	"bigcut": "HTTP/1.1 200 OK\r\nContent-Length: 20000\r\n\r\n" + strings.Repeat("d", 12000),
 }
-var xRespNames = []string{"cl", "chunked", "close", "big", "cut", "nobody"}
+var xRespNames = []string{"cl", "chunked", "close", "big", "cut", "nobody", "bigcut"}
 var xReqNames = []string{"get", "post", "poststream"}
 var xAfter = []string{"read", "readhalf", "closer", "CloseBodyStream", "SetBody", "redo"}
 
@@ -104,7 +106,7 @@ func guard(f func()) (p string) {
 }
 
 // xHistory runs the dirty exchange and the application's program; it returns the objects to be released.
-func xHistory(cs XCase) (*protocol.Request, *protocol.Response) {
+func xHistory(cs XCase) (*protocol.Request, *protocol.Response, *clih.Client) {
 	req, resp := protocol.AcquireRequest(), protocol.AcquireResponse()
 	raw := []byte(xResponses[cs.Resp])
 	sc := netsim.NewScriptConn([][]byte{raw}, netsim.EndEOF)
@@ -146,7 +148,7 @@ func xHistory(cs XCase) (*protocol.Request, *protocol.Response) {
 			}
 		})
 	}
-	return req, resp
+	return req, resp, cl
 }
 
 type xProbeObjs struct {
@@ -207,16 +209,20 @@ var (
 	xRespC = "HTTP/1.1 200 OK\r\nContent-Length: 2\r\n\r\nCC"
 )
 
-// xProbe: mid runs after both probe exchanges returned and before their bodies are read.
-func xProbe(stream bool, objs xProbeObjs, mid func()) []string {
+// xProbe: mid runs after both probe exchanges returned and before their bodies are read. cl is the client of the history
+// (nil: a new one): the probe closes its idle connections first and uses scripted connections of its own, so that a client
+// whose bookkeeping the history left intact behaves like a new one.
+func xProbe(stream bool, objs xProbeObjs, mid func(), cl *clih.Client) []string {
 	var o []string
 	ca := netsim.NewScriptConn([][]byte{[]byte(xRespA)}, netsim.EndTimeout)
 	ca.Next = [][][]byte{{[]byte(xRespC)}}
 	cb := netsim.NewScriptConn([][]byte{[]byte(xRespB)}, netsim.EndTimeout)
 	cb.Next = [][][]byte{{[]byte(xRespC)}}
 	cc := netsim.NewScriptConn([][]byte{[]byte(xRespC)}, netsim.EndTimeout)
-	cl := xClient(stream)
-	cl.Reset(ca, cb, cc)
+	if cl == nil {
+		cl = xClient(stream)
+	}
+	o = append(o, "close-idle="+guard(func() { cl.Reset(ca, cb, cc) }))
 	xSetReq(objs.qa, "get", "/a")
 	xSetReq(objs.qb, "post", "/b")
 	var errA, errB error
@@ -251,7 +257,9 @@ func xProbe(stream bool, objs xProbeObjs, mid func()) []string {
 	o = append(o, fmt.Sprintf("wireA=%q closed=%v", ca.Out, ca.Closed))
 	o = append(o, fmt.Sprintf("wireB=%q closed=%v", cb.Out, cb.Closed))
 	o = append(o, fmt.Sprintf("wireC=%q closed=%v", cc.Out, cc.Closed))
-	cl.Reset()
+	o = append(o, "close-idle-at-end="+guard(func() { cl.Reset() }))
+	st := cl.HC.ConnPoolState()
+	o = append(o, fmt.Sprintf("pool at the end: idle=%d total=%d waiting=%d", st.PoolConnNum, st.TotalConnNum, st.WaitConnNum))
 	return o
 }
 
@@ -262,7 +270,7 @@ func xReference(stream bool) []string {
 		return r
 	}
 	objs := xProbeObjs{&protocol.Request{}, &protocol.Request{}, &protocol.Request{}, &protocol.Response{}, &protocol.Response{}, &protocol.Response{}}
-	r := xProbe(stream, objs, nil)
+	r := xProbe(stream, objs, nil, nil)
 	xRefs[stream] = r
 	return r
 }
@@ -280,7 +288,10 @@ func xExec(cs XCase) xResult {
 		return lendExec(cs)
 	}
 	want := xReference(cs.ProbeStream)
-	req1, resp1 := xHistory(cs)
+	req1, resp1, cl1 := xHistory(cs)
+	if cs.Stream != cs.ProbeStream {
+		cl1 = nil // the probe needs a client of the other mode
+	}
 	release := func() {
 		guard(func() { protocol.ReleaseResponse(resp1) })
 		guard(func() { protocol.ReleaseRequest(req1) })
@@ -293,7 +304,7 @@ func xExec(cs XCase) xResult {
 	}
 	objs := xProbeObjs{protocol.AcquireRequest(), protocol.AcquireRequest(), protocol.AcquireRequest(), protocol.AcquireResponse(), protocol.AcquireResponse(), protocol.AcquireResponse()}
 	hit := objs.ra == resp1 || objs.rb == resp1 || objs.rc == resp1
-	got := xProbe(cs.ProbeStream, objs, mid)
+	got := xProbe(cs.ProbeStream, objs, mid, cl1)
 	protocol.ReleaseRequest(objs.qa)
 	protocol.ReleaseRequest(objs.qb)
 	protocol.ReleaseRequest(objs.qc)
